@@ -687,7 +687,7 @@ func (p Prop) concurrent(c *Case) (*runResult, error) {
 			}
 		})
 	}
-	rr.sres = s.Run(names, bodies, 20*time.Second)
+	rr.sres = s.Run(names, bodies, watchdog())
 	removeHooks()
 	fam.Sink = nil
 	for t, pv := range panics {
@@ -788,6 +788,13 @@ func (p Prop) Run(ci interface{}, focus *core.Violation) *core.Outcome {
 			o.Report(v, focus, o.TraceHash)
 			return o
 		}
+		if sr.Reason == "watchdog" && len(sr.Blocked) > 0 {
+			// the scheduler parks tasks with no lock held: a goroutine that sits on a real
+			// lock or channel inside gorm when the watchdog fires will never get it
+			v := &core.Violation{Class: "deadlock", Key: "c07|blocked_in_gorm|" + sr.Blocked[0], Detail: fmt.Sprintf("the run stopped making progress; blocked inside gorm, not parked by the scheduler: %v (%s)", sr.Blocked, cfg)}
+			o.Report(v, focus, o.TraceHash)
+			return o
+		}
 		o.Trouble = "run aborted: " + sr.Reason + " " + strings.Join(sr.Stuck, "; ")
 		return o
 	}
@@ -868,4 +875,13 @@ func diff(a, b string) string {
 		}
 	}
 	return sb.String()
+}
+
+// watchdog is the wall-clock limit of one scheduled run (a run takes
+// milliseconds; race builds are an order of magnitude slower).
+func watchdog() time.Duration {
+	if core.RaceBuild {
+		return 20 * time.Second
+	}
+	return 8 * time.Second
 }
